@@ -245,6 +245,16 @@ func runC01(c C01Case) (c01Stats, error) {
 			if got.Err {
 				failuresSince++
 			}
+		case "brokenWrite":
+			// a RenderTo whose writer fails part-way (nothing is checked here: what it leaves behind
+			// must not reach the renders that follow)
+			if _, inLoader := en.spec.Templates[op.Name]; !inLoader {
+				continue
+			}
+			guard(func() (string, error) {
+				return "", en.e.RenderTo(&brokenWriter{limit: op.N}, op.Name, zooCtx(c.Ctxs[op.Ctx%len(c.Ctxs)], 0))
+			})
+			failuresSince++
 		case "gc":
 			for k := 0; k < maxInt(1, op.N); k++ {
 				runtime.GC()
@@ -351,7 +361,13 @@ func genC01(t *rapid.T) C01Case {
 		eng := rapid.IntRange(0, nw-1).Draw(t, "eng")
 		names := sortedTemplateNames(c.Worlds[eng])
 		op := C01Op{Eng: eng}
-		switch k := rapid.IntRange(0, 27).Draw(t, "opkind"); {
+		switch k := rapid.IntRange(0, 28).Draw(t, "opkind"); {
+		case k == 28:
+			// a writer that breaks in the middle of one render, then renders into healthy writers
+			nm := rapid.SampledFrom([]string{"x_big", "main", "x_nest_a", "x_plain"}).Draw(t, "brokenname")
+			c.Ops = append(c.Ops, C01Op{Op: "brokenWrite", Eng: eng, Name: nm, Ctx: eng, N: rapid.SampledFrom([]int{0, 1, 3, 10, 100}).Draw(t, "brokenlimit")},
+				C01Op{Op: "renderTo", Eng: rapid.IntRange(0, nw-1).Draw(t, "brokenafter"), Name: rapid.SampledFrom([]string{"x_plain", "x_upper", "main"}).Draw(t, "brokennext"), Ctx: eng})
+			continue
 		case k == 27:
 			// one template whose filter arguments come from the context, rendered with two contexts
 			other := rapid.IntRange(0, len(c.Ctxs)-1).Draw(t, "argctx")
@@ -477,7 +493,7 @@ func genC01(t *rapid.T) C01Case {
 	return c
 }
 
-const c01Rule = "histories of 5-40 (thorough 200) operations over 1-3 engines, each holding a template set from the structural generators (control flow, inheritance with parent(), include chains, macro libraries in five call forms, apply/spaceless) plus failing templates (syntax error, unclosed tag, include of a missing template, include of a broken template, division by zero) and a template above 4096 bytes; operations: Render / RenderTo / Load+Render, bursts of up to 130 renders of one template, repeat of the previous call, ParseTemplate+Render of valid, invalid, small and > 4096-byte sources (also of other engines' sources), RegisterString / LoadFromCompiledData / RegisterTemplate (also of names whose lookup failed or was ignored earlier, of a name whose old handle is still held, and of the parent behind a relative extends/include), a struct reached by value and by pointer in separate templates, templates with escaped string literals around a parse of other escaped literals, SetCache, SetDebug, AddGlobal / AddFunction / AddFilter / a relaxed default policy of its own on one of the engines (the others must not see it), a template whose filter arguments come from the context rendered with several contexts, runtime.GC once or twice; after every render the result is compared with a pristine engine in a fresh OS process; non-trivial = the checked render is preceded by a render of the same cached template, a failing render or a GC; distinct by history"
+const c01Rule = "histories of 5-40 (thorough 200) operations over 1-3 engines, each holding a template set from the structural generators (control flow, inheritance with parent(), include chains, macro libraries in five call forms, apply/spaceless) plus failing templates (syntax error, unclosed tag, include of a missing template, include of a broken template, division by zero) and a template above 4096 bytes; operations: Render / RenderTo (into a writer that has only Write) / Load+Render, a RenderTo whose writer breaks part-way followed by renders into healthy writers, bursts of up to 130 renders of one template, repeat of the previous call, ParseTemplate+Render of valid, invalid, small and > 4096-byte sources (also of other engines' sources), RegisterString / LoadFromCompiledData / RegisterTemplate (also of names whose lookup failed or was ignored earlier, of a name whose old handle is still held, and of the parent behind a relative extends/include), a struct reached by value and by pointer in separate templates, templates with escaped string literals around a parse of other escaped literals, SetCache, SetDebug, AddGlobal / AddFunction / AddFilter / a relaxed default policy of its own on one of the engines (the others must not see it), a template whose filter arguments come from the context rendered with several contexts, runtime.GC once or twice; after every render the result is compared with a pristine engine in a fresh OS process; non-trivial = the checked render is preceded by a render of the same cached template, a failing render or a GC; distinct by history"
 
 func TestC01History(t *testing.T) {
 	r := NewRec(t, "C01", c01Rule)
